@@ -456,6 +456,14 @@ def gc4(F, R):
         elif e.kind in ("sodg_field_write", "sodg_deep_write") and e.d.get("field") == "Sodg::stores" and fk != "Sodg::empty":
             R.bad("GC4", "GC4/%s/stores-replaced" % fk, e.where(), "counter table replaced / written directly")
     R.floor("GC4", "counter updates", n_cnt, 2)
+    # the read status the counters count is changed by put(), data() and add() only: a datum marked unread (or read) anywhere
+    # else escapes the accounting
+    for e in c.all:
+        if e.kind == "pers_write" and e.fn_key() not in ("Sodg::put", "Sodg::data", "Sodg::add") and not nontree_exempt_event(c, e):
+            R.bad("GC4", "GC4/%s/read-status-written-outside-the-mutators" % e.fn_key(), e.where(),
+                  "the read status of a vertex is written outside put()/data()/add(): the unread counter of its group is not adjusted "
+                  "with it (a datum marked unread here is not counted, its group dies while it is unread)",
+                  {"value": show(e.val, e.body)})
 
     # ---- put
     body = c.mut["put"]
